@@ -9,7 +9,8 @@
    into their lock-free test and their locked append, Close into its two compare-and-swaps and
    its wait), runner and closer returns, cancellation of the caller's context, delivery of the
    grace timer, and the managers' own steps at the code's blocking points.  [v] = the code before
-   ([Original]) or after ([Fixed]) the two fix: commits; theorems quantified over [v] hold for
+   ([Original]) or after ([Fixed]) the three fix: commits (AddCloser, RunnerManager.Add/Run,
+   RunnerCloserManager.Add/Run); theorems quantified over [v] hold for
    both.  Errors are codes; a returned error is the list of the leaves of its join. *)
 From Kit Require Import C12.Model C12.Spec C12.Check C12.Proofs_oracle C12.Proofs_rm C12.Proofs_cm
   C12.Proofs_main.
@@ -237,13 +238,11 @@ Proof. exact cm_add_before_start_accepted. Qed.
 Print Assumptions C12_closer_add_before_start_accepted.
 
 (* CLOSE REACHES THE RUNNERS (fixed code), however the manager was assembled - constructor, Add,
-   or both - along every CALM schedule ([run_calm]: Run is not started while an Add call sits
-   between its test and its append): whenever runner goroutines exist one of them is the
+   or both - along EVERY schedule: whenever runner goroutines exist one of them is the
    close-runner, and while it runs a closed closeCh (= Close was called) enables its return, whose
-   collection cancels the context of all the others (C12_cancel_on_first_return).  A calm run is
-   a run ([run_calm_run]). *)
+   collection cancels the context of all the others (C12_cancel_on_first_return). *)
 Theorem C12_close_reaches_runners : forall grace bs cls es s,
-  run_calm Fixed (new_cm grace bs cls) es = Some s ->
+  run_c Fixed (new_cm grace bs cls) es = Some s ->
   r_procs (inner s) <> [] ->
   exists i p, nth_error (r_procs (inner s)) i = Some p /\ p_beh p = CloseRunner /\
     (p_st p = Running -> r_closech (inner s) = true ->
@@ -251,17 +250,16 @@ Theorem C12_close_reaches_runners : forall grace bs cls es s,
 Proof. exact cm_close_reaches_runners. Qed.
 Print Assumptions C12_close_reaches_runners.
 
-(* ... and why the discipline is needed, ON THE CURRENT CODE: Run decides from an unlocked read of
-   len(mngr.runners) whether to add the close-runner.  Add passes its tests on an empty manager,
-   Run reads 0, Add appends and returns nil, the inner manager starts: one runner waiting for its
-   context, Close called, no close-runner - the runner cannot return and Close stays blocked. *)
+(* ... and the code before the third fix - both the original tree and the tree with the first two
+   fixes only ([run_c_gen Fixed Original]): Run decided from an unlocked read of len(mngr.runners)
+   whether to add the close-runner.  Add passes its tests on an empty manager, Run reads 0, Add
+   appends and returns nil, the inner manager starts: one runner waiting for its context, Close
+   called, no close-runner - the runner cannot return and Close stays blocked. *)
 Theorem C12_close_reaches_runners_refuted :
-  exists s, run_c Fixed (new_cm false [] []) add_watcher_race = Some s /\
-            map p_beh (r_procs (inner s)) = [OnCancel None] /\
-            r_closech (inner s) = true /\ r_cancelled (inner s) = false /\
-            nth_error (closes s) 0 = Some KB /\ c_stopped s = false /\
-            step_c Fixed s (CInner (RRunnerReturn 0)) = None /\
-            step_c Fixed s (CCloseStep 0) = None.
+  (exists s, run_c Original (new_cm false [] []) add_watcher_race = Some s /\
+             close_cannot_stop s (step_c Original)) /\
+  (exists s, run_c_gen Fixed Original (new_cm false [] []) add_watcher_race = Some s /\
+             close_cannot_stop s (step_c_gen Fixed Original)).
 Proof. exact cm_close_reaches_runners_refuted. Qed.
 Print Assumptions C12_close_reaches_runners_refuted.
 
